@@ -42,6 +42,8 @@ class _Canon(ast.NodeTransformer):
 
     def visit_BoolOp(self, node: ast.BoolOp):
         self.generic_visit(node)
+        # `and` / `or` of side-effect free tests: operand order is immaterial for the value
+        node.values = sorted(node.values, key=u)
         return node
 
     def visit_UnaryOp(self, node: ast.UnaryOp):
@@ -68,6 +70,11 @@ class _Canon(ast.NodeTransformer):
     def visit_Call(self, node: ast.Call):
         self.generic_visit(node)
         node.keywords = sorted(node.keywords, key=lambda k: k.arg or "")
+        # the argument of a set constructor is unordered: frozenset(a + b) == frozenset(b + a)
+        if u(node.func) in ("frozenset", "set") and len(node.args) == 1 and isinstance(node.args[0], ast.BinOp) and isinstance(node.args[0].op, ast.Add):
+            b = node.args[0]
+            if u(b.left) > u(b.right):
+                node.args[0] = ast.BinOp(left=b.right, op=b.op, right=b.left)
         # pow(x, 2) / np.power(x, 2) -> x ** 2 ; np.abs -> abs
         f = u(node.func)
         if f in ("pow", "np.power") and len(node.args) == 2 and not node.keywords:
